@@ -14,8 +14,11 @@
 package c17
 
 import (
+	"math"
 	"os"
 	"path/filepath"
+	"strings"
+	"syscall"
 	"time"
 
 	"github.com/bufbuild/bufverif/checks/c13"
@@ -46,41 +49,65 @@ func run(r *evid.Run) {
 		scratch = p
 	}
 
-	bin, binErr := buildPlugin(scratch)
-	if binErr != nil {
-		r.Incomplete("harness: half C skipped: " + binErr.Error())
+	only := os.Getenv("VERIF_C17_ONLY") // debugging aid: subset of "ABC"; empty = everything
+	want := func(h string) bool { return only == "" || strings.Contains(only, h) }
+	cpuMark := cpuSeconds()
+	lap := func(key string) {
+		now := cpuSeconds()
+		r.Set(key, math.Round((now-cpuMark)*10)/10)
+		cpuMark = now
+	}
+
+	var bin string
+	var binErr error
+	if want("C") {
+		bin, binErr = buildPlugin(scratch)
+		if binErr != nil {
+			r.Incomplete("harness: half C skipped: " + binErr.Error())
+		}
 	}
 
 	// serial prologue: the only part that depends on the process working directory
-	runRelVsAbs(r, scratch)
-	if binErr == nil {
+	if want("B") {
+		runRelVsAbs(r, scratch)
+	}
+	if want("C") && binErr == nil {
 		runCLIRelVsAbs(r, scratch, bin)
 	}
+	lap("cpu_s_prologue")
 
 	// half A
 	xyz := []string{"x", "y", "x/z"}
-	spaces := []reqSpace{{n: 3, dirs: xyz, wktMasks: allMasks(3), filters: true}}
-	if r.Quick() {
-		spaces = append(spaces, reqSpace{n: 2, dirs: xyz, wktMasks: allMasks(2), filters: true})
-	} else {
-		spaces = append(spaces,
-			reqSpace{n: 2, dirs: xyz, wktMasks: allMasks(2), filters: true},
-			reqSpace{n: 4, dirs: xyz, wktMasks: []int{0, 1, 2, 4, 8, 15}, filters: false},
-		)
+	if want("A") {
+		spaces := []reqSpace{
+			{n: 2, dirs: xyz, wktMasks: allMasks(2), filterWkt: map[int]bool{0: true, 1: true, 2: true, 3: true}},
+			{n: 3, dirs: xyz, wktMasks: allMasks(3), filterWkt: map[int]bool{0: true, 5: true}},
+		}
+		if !r.Quick() {
+			spaces[1].filterWkt = map[int]bool{0: true, 1: true, 2: true, 4: true, 5: true, 7: true}
+			spaces = append(spaces,
+				reqSpace{n: 4, dirs: xyz, wktMasks: []int{0, 15}},
+				reqSpace{n: 4, dirs: []string{"x", "y"}, wktMasks: []int{1, 2, 4, 8}},
+			)
+		}
+		runRequests(r, spaces)
+		lap("cpu_s_half_A")
 	}
-	runRequests(r, spaces)
 
 	// half B
-	depth := 3
-	if r.Quick() {
-		depth = 2
+	if want("B") {
+		depth := 3
+		if r.Quick() {
+			depth = 2
+		}
+		names := c13.Paths(depth)
+		r.Set("B_probe_name_components", depth)
+		runResponses(r, scratch, names)
+		lap("cpu_s_half_B")
 	}
-	names := c13.Paths(depth)
-	r.Set("B_probe_name_components", depth)
-	runResponses(r, scratch, names)
 
 	// half C
-	if binErr == nil {
+	if want("C") && binErr == nil {
 		cliDepth := 2
 		layoutList := layouts(3, xyz)
 		if r.Quick() {
@@ -89,6 +116,17 @@ func run(r *evid.Run) {
 		}
 		r.Set("C_probe_name_components", cliDepth)
 		runCLIResponses(r, scratch, bin, cliNames(cliDepth))
+		lap("cpu_s_half_C_responses")
 		runCLIRequests(r, scratch, bin, layoutList)
+		lap("cpu_s_half_C_requests")
 	}
+}
+
+// cpuSeconds is the CPU time (user+system) of this process and its waited-for children so far.
+func cpuSeconds() float64 {
+	var self, children syscall.Rusage
+	_ = syscall.Getrusage(syscall.RUSAGE_SELF, &self)
+	_ = syscall.Getrusage(syscall.RUSAGE_CHILDREN, &children)
+	t := func(tv syscall.Timeval) float64 { return float64(tv.Sec) + float64(tv.Usec)/1e6 }
+	return t(self.Utime) + t(self.Stime) + t(children.Utime) + t(children.Stime)
 }
